@@ -268,6 +268,9 @@ var FixedFamilies20 = func() []Family20 {
 	add("many-colon-userinfo", "http://", ":", "@h/", "", "parse")
 	add("opaque-host", "foo://", "h", "/", "", all...)
 	add("opaque-host-escaped", "foo://", "é", "/", "", "parse", "href")
+	add("opaque-host-percent", "foo://", "%41", "/", "", "parse", "gsb", "semantic", "reparse")
+	add("opaque-host-lone-percent", "foo://", "%", "/", "", "parse", "semantic")
+	add("opaque-host-nonascii-relative", "//h", "💩", "/p", "foo:/a", "parse", "semantic")
 	add("domain-host", "http://", "h", ".com/", "", "parse", "href", "gsb", "semantic")
 	add("dotted-labels", "http://", "a.", "com/", "", "parse", "href", "gsb", "semantic")
 	add("dotted-numbers", "http://", "1.", "1/", "", "parse", "gsb")
